@@ -363,6 +363,43 @@ example : (match demo.poll [] 400000 false [] with
     | .panic _ => (none, .offline, .waiting 9, none, .offline)) =
     (none, .claimToken .scan, .waiting 0, none, .passToken false .first) := by decide
 
+/-- **Tightness**: from every state with bound 3 (claim scan standing at the last GAP address) the first
+TWO late polls transmit nothing — the unrestricted two-poll statement is false, three polls are needed. -/
+theorem two_polls_silent_of_bound3 (s : Station) (apps : Apps) (l now now2 : Int) (hinv : Inv s apps)
+    (hon : s.online = true) (hl : s.lastBusActivity = some l) (h1 : l + (s.p.silence : Nat) < now) (h2 : now ≤ now2)
+    (hb : pollsToTx s = 3) : ¬ TransmitsWithin s apps [] [now, now2] := by
+  rintro ⟨c1, hc1, h⟩
+  have hc1' : pollInner { s := s, apps := apps, rx := [] } now false = .ok c1 := hc1
+  have hs : Sil { s := s, apps := apps, rx := [] } l := ⟨hon, rfl, rfl, hl⟩
+  have ht1 := late_noTx_of_bound _ now l hs hinv h1 (by show 2 ≤ pollsToTx s; omega) c1 hc1'
+  obtain ⟨c', hc', hi1, -, ho1, hp1, hd⟩ := silent_bus_progress { s := s, apps := apps, rx := [] } now l hinv hon rfl rfl hl h1
+  rw [hc1'] at hc'
+  cases hc'
+  rcases hd with hd | ⟨-, hrx1, hl1, hdef, -⟩
+  · exact hd ht1
+  · rcases h with h | ⟨c2, hc2, h⟩
+    · exact h ht1
+    · have hb1 : pollsToTx c1.s = 2 := by
+        rcases hdef with ⟨hst, ⟨r, hr⟩, -⟩ | ⟨-, cur, -, -, hst', hg'⟩
+        · have hst0 : s.st = .claimToken .scan := hst
+          have hr0 : s.gap = .waiting r := hr
+          simp [pollsToTx, hst0, hr0] at hb
+        · simp [pollsToTx, hst', hg']
+      have hs1 : Sil { s := c1.s, apps := c1.apps, rx := c1.rx } l := ⟨ho1, rfl, hrx1, hl1⟩
+      have hlate2 : Late c1.s.p l now2 := by
+        show l + (c1.s.p.silence : Nat) < now2
+        rw [hp1]; show l + (s.p.silence : Nat) < now2; omega
+      have ht2 := late_noTx_of_bound _ now2 l hs1 hi1 hlate2 (by show 2 ≤ pollsToTx c1.s; omega) c2 hc2
+      rcases h with h | h
+      · exact h ht2
+      · exact h
+
+/-- The unrestricted two-poll claim fails on the concrete station `demo`. -/
+theorem two_polls_not_enough : ∃ (s : Station) (apps : Apps) (l now now2 : Int), Inv s apps ∧ s.online = true ∧
+    s.lastBusActivity = some l ∧ l + (s.p.silence : Nat) < now ∧ now ≤ now2 ∧ ¬ TransmitsWithin s apps [] [now, now2] :=
+  ⟨demo, [], 300066, 400000, 500000, demo_inv, rfl, rfl, by decide, by decide,
+    two_polls_silent_of_bound3 demo [] 300066 400000 500000 demo_inv rfl rfl (by decide) (by decide) (by decide)⟩
+
 def listenDemo : Station :=
   { (Station.new demoParams) with online := true, st := .listenToken none 0, lastBusActivity := some 0 }
 
